@@ -15,6 +15,7 @@ from __future__ import annotations
 import concurrent.futures
 import sys
 import threading
+import zlib
 from collections import deque
 
 from .loop import SimDeadlock, SimLoop
@@ -40,6 +41,8 @@ class Rec:
 class Sched:
     def __init__(self, rng, stats):
         self.rng = rng
+        self.seed_int = rng.getrandbits(60)
+        self.occ = {}
         self.stats = stats
         self.order = []          # registration order = deterministic identity of threads
         self.cur = None
@@ -51,6 +54,9 @@ class Sched:
         self.thread_errors = []
         self.on_deadlock = []    # callables run at the instant a deadlock is detected (before threads are torn down)
         self.on_switch = None    # callable(thread, "file:line:function", next thread): a line pre-emption switched threads
+        self.line_ord = 0        # ordinal of the current line pre-emption point (those that passed the probability draw)
+        self.suppress = frozenset()   # ordinals at which no scheduling point is taken (schedule minimisation)
+        self.switch_ords = []    # ordinals at which a line pre-emption really switched threads
         self.preempt = 0.0       # probability of a scheduling point at each traced line of anyio's thread-crossing code
 
     # -- registration -------------------------------------------------------------------------
@@ -76,11 +82,24 @@ class Sched:
         return [r for r in self.order if not r.done and (r.pred is None or r.pred())]
 
     def _pick(self, cands, tag):
+        """Which thread runs next.  The decision is a function of (seed, deciding thread, kind of scheduling point, how
+        often this thread has been at this kind of point) - not the next value of a sequential PRNG - so that removing
+        an operation or a pre-emption elsewhere leaves the decisions at all other points unchanged.  That is what makes
+        shrinking of races work: a candidate differs from the failing run only where it was changed."""
         if len(cands) == 1:
             return cands[0]
         self.decisions += 1
-        nxt = self.rng.choice(cands)
-        return nxt
+        rec = self.cur
+        k = (rec.index if rec is not None else -1, zlib.crc32(tag.encode()))
+        occ = self.occ.get(k, 0)
+        self.occ[k] = occ + 1
+        return cands[hash((self.seed_int, k[0], k[1], occ)) % len(cands)]
+
+    def coin(self, key, p):
+        """Position-keyed biased coin (see _pick): key is a tuple of ints."""
+        occ = self.occ.get(key, 0)
+        self.occ[key] = occ + 1
+        return (hash((self.seed_int, 7919) + key + (occ,)) & 0xFFFFFF) < p * 0x1000000
 
     def yield_point(self, tag=""):
         if self.aborted:
@@ -91,8 +110,10 @@ class Sched:
         self.log.append((rec.index, tag, nxt.index))
         if nxt is not rec:
             self.stats["thread_preempt"] += 1
-            if self.on_switch is not None and tag.startswith("line:"):
-                self.on_switch(rec.name, tag[5:], nxt.name)
+            if tag.startswith("line:"):
+                self.switch_ords.append(self.line_ord)
+                if self.on_switch is not None:
+                    self.on_switch(rec.name, tag[5:], nxt.name)
             self._transfer(rec, nxt)
 
     def block_until(self, pred, tag=""):
@@ -204,6 +225,16 @@ def _wants_trace(code):
     return False
 
 
+_code_ids: dict = {}
+
+
+def _code_id(code):
+    i = _code_ids.get(code)
+    if i is None:
+        i = _code_ids[code] = zlib.crc32(f"{code.co_filename.rsplit('/', 1)[-1]}:{code.co_qualname}".encode())
+    return i
+
+
 def _global_trace(frame, event, arg):
     if event != "call":
         return None
@@ -218,9 +249,12 @@ def _local_trace(frame, event, arg):
     if event == "line":
         s = S
         if s is not None and s.preempt and not s.aborted and s.cur is s.by_ident.get(threading.get_ident()):
-            if s.rng.random() < s.preempt:
+            code = frame.f_code
+            if s.coin((s.cur.index, _code_id(code), frame.f_lineno), s.preempt):
+                s.line_ord += 1
+                if s.line_ord in s.suppress:
+                    return _local_trace
                 s.stats["line_preempt_point"] += 1
-                code = frame.f_code
                 s.yield_point(f"line:{code.co_filename.rsplit('/', 1)[-1]}:{frame.f_lineno}:{code.co_name}")
     return _local_trace
 
@@ -420,12 +454,13 @@ def _excepthook(args):
 _orig_excepthook = threading.excepthook
 
 
-def begin(rng, stats, main_name="main", preempt=0.0):
+def begin(rng, stats, main_name="main", preempt=0.0, suppress=()):
     global S
     install()
     threading.excepthook = _excepthook
     S = Sched(rng, stats)
     S.preempt = preempt
+    S.suppress = frozenset(suppress)
     S.register_current(main_name)
     if preempt:
         sys.settrace(_global_trace)
